@@ -47,9 +47,10 @@ class Driver(GenericAdapter):
     def variants(self, op):
         if op["op"] == "update_counts" and self.name == "str":
             # one call mixing the argument forms: mapping + keyword counts (a key in both adds up), iterable + keyword counts
-            return ["update_map", "update_kw", "update_kwonly", "update_map_kw", "update_iter_kw"]
+            return ["update_map", "update_kw", "update_kwonly", "update_map_kw", "update_iter_kw", "update_map_zeros"]
         return ["add", "update_iter", "update_map", "update_kw" if self.name == "str" else "update_gen", "add_failing", "update_failing",
-                "update_tuple", "update_iterator", "update_deque", "update_ordereddict", "update_counter", "update_iteritems_only"]
+                "update_tuple", "update_iterator", "update_deque", "update_ordereddict", "update_counter", "update_iteritems_only",
+                "update_thresholdcounter", "update_mappingproxy", "update_zero_counts"]
 
     def step(self, tc, op, variant):
         K = self.K
@@ -67,6 +68,12 @@ class Driver(GenericAdapter):
                     m_ = {k: c // 2 if i % 2 == 0 else c for i, (k, c) in enumerate(d.items())}
                     kw_ = {k: c - m_[k] for k, c in d.items() if c - m_[k] > 0 or k in list(d)[:1]}
                     tc.update({k: c for k, c in m_.items() if c > 0 or k not in kw_}, **kw_)
+                elif variant == "update_map_zeros":
+                    # entries with a count of zero add nothing, wherever in the mapping they stand and whatever the total is
+                    z_ = {K(len(d) + 7): 0}
+                    z_.update(d)
+                    z_[K(len(d) + 8)] = 0
+                    tc.update(z_, **{K(1): 0})
                 elif variant == "update_iter_kw":
                     first = list(d.items())[:1]
                     tc.update([k for k, c in first for _ in range(c // 2)], **{k: (c - c // 2 if (k, c) in first else c) for k, c in d.items()})
@@ -101,6 +108,24 @@ class Driver(GenericAdapter):
             elif variant == "update_deque":
                 import collections
                 tc.update(collections.deque(K(k) for k in ks))
+            elif variant == "update_thresholdcounter":
+                # another (non-compacting) ThresholdCounter as the source: its pairs are added with their counts
+                from boltons.cacheutils import ThresholdCounter
+                src_ = ThresholdCounter(threshold=0.0001)
+                src_.update([K(k) for k in ks])
+                before_ = (src_.items(), src_.total)
+                tc.update(src_)
+                if (src_.items(), src_.total) != before_:
+                    raise core.MachineryError("update(source) changed the source counter")
+            elif variant == "update_zero_counts":
+                # zero counts (a Counter after subtract, kw=0) are no additions: before, between and after real ones
+                tc.update({K(1): 0, K(2): 0})
+                for k in ks:
+                    tc.add(K(k))
+                    tc.update({K(k): 0}, **({K(1): 0} if self.name == "str" else {}))
+            elif variant == "update_mappingproxy":
+                import types
+                tc.update(types.MappingProxyType({K(k): ks.count(k) for k in ks}))
             elif variant in ("update_ordereddict", "update_counter", "update_iteritems_only"):
                 import collections
                 pairs_ = []
